@@ -87,6 +87,10 @@ type parser struct {
 	curToken  token.Token
 	peekToken token.Token
 
+	// body start of the comment tag opened by curToken / peekToken
+	curComment  lexer.CommentStart
+	peekComment lexer.CommentStart
+
 	prefixParseFns map[token.Type]prefixParseFn
 	infixParseFns  map[token.Type]infixParseFn
 	inForBlock     bool
@@ -119,7 +123,17 @@ func (p *parser) parseProgram() *ast.Program {
 
 func (p *parser) nextToken() {
 	p.curToken = p.peekToken
+	p.curComment = p.peekComment
+	p.readPeekToken()
+}
+
+// readPeekToken pulls the lookahead token; for a comment opener it notes
+// where the comment body starts, before the lexer moves on.
+func (p *parser) readPeekToken() {
 	p.peekToken = p.NextToken()
+	if p.peekToken.Type == token.C_START {
+		p.peekComment = p.LastComment()
+	}
 }
 
 func (p *parser) curTokenIs(t token.Type) bool {
@@ -375,8 +389,8 @@ func (p *parser) parseStringLiteral() ast.Expression {
 func (p *parser) parseCommentLiteral() ast.Expression {
 	// the body of a comment is not code: let the lexer skip it raw, up to
 	// the closing tag or the end of the input
-	p.curToken = p.SkipComment()
-	p.peekToken = p.NextToken()
+	p.curToken = p.SkipComment(p.curComment)
+	p.readPeekToken()
 
 	return &ast.StringLiteral{TokenAble: ast.TokenAble{Token: p.curToken}, Value: ""}
 }
